@@ -194,12 +194,15 @@ class PythonDictMissingValueFeatureGroup(MissingValueFeatureGroup):
             # Constant imputation is the same regardless of groups
             return cls._impute_constant(result, constant_value)
 
-        # Calculate overall statistics for fallback
+        # Calculate overall statistics for fallback (only the one the method needs: mean/median of a
+        # non-numeric column would raise although mode/ffill/bfill are well defined for it)
         non_null_values = [val for val in result if val is not None]
-        overall_mean = statistics.mean(non_null_values) if non_null_values else None
-        overall_median = statistics.median(non_null_values) if non_null_values else None
+        overall_mean = statistics.mean(non_null_values) if non_null_values and imputation_method == "mean" else None
+        overall_median = (
+            statistics.median(non_null_values) if non_null_values and imputation_method == "median" else None
+        )
         overall_mode = None
-        if non_null_values:
+        if non_null_values and imputation_method == "mode":
             mode_counter = Counter(non_null_values)
             overall_mode = mode_counter.most_common(1)[0][0] if mode_counter else None
 
